@@ -166,6 +166,15 @@ func (v *PacketDslVisitorImpl) VisitPacketDefinition(ctx *gen.PacketDefinitionCo
 				lengthField = fld
 			}
 
+			if _, exists := fieldMap[fld.Name]; exists {
+				v.BinModel.AddSyntaxError(&model.SyntaxError{
+					Line:            fctx.GetStart().GetLine(),
+					Column:          fctx.GetStart().GetTokenSource().GetCharPositionInLine(),
+					Msg:             "Duplicate field definition for " + fld.Name,
+					OffendingSymbol: nil,
+				})
+				continue
+			}
 			fields = append(fields, fld)
 			fieldMap[fld.Name] = fld
 
@@ -381,6 +390,7 @@ func (v *PacketDslVisitorImpl) VisitInerObjectField(ctx *gen.InerObjectFieldCont
 	decl := ctx.InerObjectDeclaration()
 	name := decl.IDENTIFIER().GetText()
 	var subFields []*model.Field
+	var subFieldMap = make(map[string]*model.Field)
 	// Iterate all sub-field definitions inside the nested object
 	for _, fctx := range decl.AllFieldDefinition() {
 		fld := v.VisitFieldDefinition(fctx)
@@ -388,7 +398,17 @@ func (v *PacketDslVisitorImpl) VisitInerObjectField(ctx *gen.InerObjectFieldCont
 			continue
 		}
 		f := fld.(*model.Field)
+		if _, exists := subFieldMap[f.Name]; exists {
+			v.BinModel.AddSyntaxError(&model.SyntaxError{
+				Line:            fctx.GetStart().GetLine(),
+				Column:          fctx.GetStart().GetTokenSource().GetCharPositionInLine(),
+				Msg:             "Duplicate field definition for " + f.Name,
+				OffendingSymbol: nil,
+			})
+			continue
+		}
 		subFields = append(subFields, f)
+		subFieldMap[f.Name] = f
 	}
 	// Construct nested Packet model
 	p := model.Packet{
